@@ -69,6 +69,20 @@ theorem charge_guard_spec (c tol : ℚ) :
     P2P.ChargeGuard.nonInteger c tol = false ↔ ∃ n : ℤ, |c - (n : ℚ)| ≤ |tol| :=
   P2P.Proofs.ChargeGuard.nonInteger_spec_core c tol
 
+/-- **The repair gate.** `is_repairable` lets a structure through to heavy-atom repair exactly
+when something is missing and the missing fraction is at most one tenth (`REPAIR_LIMIT`); with no
+heavy atom and no ligand it raises — for all counts. (Model of the decision on the two counts the
+function reads; compared with the real function on a grid around the limit and at every run.) -/
+theorem repair_gate_spec (heavy missing : Nat) (lig : Bool) :
+    P2P.ChargeGuard.repairGate heavy missing lig = P2P.ChargeGuard.Gate.repair ↔
+      0 < heavy ∧ 0 < missing ∧ (missing : ℚ) / (heavy : ℚ) ≤ 1 / 10 :=
+  P2P.Proofs.ChargeGuard.repairGate_spec_core heavy missing lig
+
+/-- 11 of 108 heavy atoms missing (10.19 %) is over the limit, 10 of 100 is not -/
+example : P2P.ChargeGuard.repairGate 108 11 false = P2P.ChargeGuard.Gate.tooMany ∧
+    P2P.ChargeGuard.repairGate 100 10 false = P2P.ChargeGuard.Gate.repair ∧
+    P2P.ChargeGuard.repairGate 0 0 false = P2P.ChargeGuard.Gate.noHeavyError := by decide
+
 /-- the total of the eight-residue CA trace of the seeded defect (-0.7086) is rejected -/
 example : P2P.ChargeGuard.nonInteger (-7086 / 10000 : ℚ) (1 / 1000) = true := by
   by_contra h
